@@ -20,7 +20,6 @@ package config
 // FilterFiles yields exactly the files of the pass that are not skipped, in the order of pass.Files
 //@ func Config.FilterFiles
 //@   props C14 C10 C01 C02 C03 C04 C07 C09
-//@   requires pass != nil && (forall i int :: 0 <= i && i < len(pass.Files) ==> pass.Files[i] != nil)
 //@   ensures forall k int :: 0 <= k && k < len(result) ==> result[k] != nil && !skipFile(c, pass, result[k]) && contains(pass.Files, result[k])
 //@   ensures forall i int :: 0 <= i && i < len(pass.Files) && !skipFile(c, pass, pass.Files[i]) ==> contains(result, pass.Files[i])
 //@   assigns nothing
